@@ -62,4 +62,31 @@ func init() {
 			return js
 		},
 	})
+	reg(&PropSpec{
+		ID: "C14", Level: "other",
+		Explanation: seqLevelText + ". C14: every expression tree over From/FromSlice/TakeWhile/DropWhile/Filter/Map/Plus/Join up to the depth bound (2 quick; 3 thorough restricted by root kind jobs), leaves of 0..2 symbolic elements, predicates/mapping/flat-map selector uninterpreted (selector yields nil, one element or a 1-2 element slice); the documented drain loop and ForEach (callback failing at every position) are compared with a reference evaluator over plain slices; source slices compared before/after. Tree shapes are forked, all values and function behaviours are solver variables.",
+		Assumptions: append([]string{"a sequence value is consumed by one consumer (no aliasing of one iterator in two places of a tree)", "trees deeper than the bound and leaves longer than 2 are outside the claim"}, commonAssumptions...),
+		Jobs: func(tier string) []JobSpec {
+			depth := 2
+			if tier == "thorough" {
+				depth = 3
+			}
+			var js []JobSpec
+			for k0 := 0; k0 < 9; k0++ {
+				for k1 := -1; k1 < 9; k1++ {
+					if (k0 <= 2) != (k1 == -1) {
+						continue // leaves have no child; inner nodes get their first child fixed
+					}
+					for _, h := range []string{"VSeqDrain", "VSeqForEach"} {
+						p := map[string]int{"depth": depth, "maxleaf": 2, "k0": k0}
+						if k1 >= 0 {
+							p["k1"] = k1
+						}
+						js = append(js, JobSpec{Group: "traitseq", Harness: h, Mode: "seq", Params: p})
+					}
+				}
+			}
+			return js
+		},
+	})
 }
